@@ -128,8 +128,10 @@ type GhostGlobal struct {
 type MonitorSpec struct {
 	PkgPath  string
 	TypeName string
+	RecvName string
 	Lock     string   // field name of the mutex
-	Guards   []string // guarded field names
+	Guards   []string // guarded field names ("f" of the monitor type, or "Type.f" for every object of Type)
+	Inv      *Clause  // monitor invariant over RecvName: assumed at Lock, asserted at Unlock
 }
 
 type GlobalSpec struct {
@@ -611,12 +613,22 @@ func (sp *Specs) ParseSpecText(lines []specLine, file, pkgPath string) error {
 			}
 			sp.GGlobals[pkgPath+"."+f[0]] = &GhostGlobal{PkgPath: pkgPath, Name: f[0], Type: te}
 		case "monitor":
-			// monitor Type lockfield guards f1 f2 ...
-			f := strings.Fields(s.rest)
-			if len(f) < 4 || f[2] != "guards" {
-				return errf("monitor Type lockfield guards f1 f2 ...")
+			// monitor recv Type lockfield guards f1 f2 ... [invariant expr]
+			rest := s.rest
+			var inv *Clause
+			if i := strings.Index(rest, " invariant "); i >= 0 {
+				cl, err := parseClause(rest[i+len(" invariant "):], file, s.line)
+				if err != nil {
+					return err
+				}
+				inv = cl
+				rest = rest[:i]
 			}
-			sp.Monitors[pkgPath+"."+f[0]] = &MonitorSpec{PkgPath: pkgPath, TypeName: f[0], Lock: f[1], Guards: f[3:]}
+			f := strings.Fields(rest)
+			if len(f) < 5 || f[3] != "guards" {
+				return errf("monitor recv Type lockfield guards f1 f2 ... [invariant expr]")
+			}
+			sp.Monitors[pkgPath+"."+f[1]] = &MonitorSpec{PkgPath: pkgPath, RecvName: f[0], TypeName: f[1], Lock: f[2], Guards: f[4:], Inv: inv}
 		case "global":
 			f := strings.Fields(s.rest)
 			g := &GlobalSpec{PkgPath: pkgPath, Name: f[0]}
